@@ -13,6 +13,7 @@ are printed as KNOWN-FINDING lines), 1 violation (after the replay gate; a line
 import argparse
 import concurrent.futures as cf
 import copy
+import glob
 import json
 import os
 import re
@@ -361,6 +362,28 @@ def check(prop, tier, runs=None, workers=None, seed=None):
                              "and %s" % (r.get("seed"), first_chunk_hashes[key],
                                          r.get("hash"))})
             agg["det_checked"] = agg.get("det_checked", 0) + ndet
+    # regression corpus: the minimised plan of every genuine defect found so
+    # far (regress/<prop>/*.json, committed) is replayed on every check, so a
+    # defect that returns is reported whatever the seed
+    reg_fail = []
+    reg_files = sorted(glob.glob(os.path.join(HERE, "regress", prop,
+                                              "*.json")))
+    first_fl = meta.get("flavours", ["asan"])[0]
+
+    def _reg(path):
+        d = json.load(open(path))
+        fl = d.get("flavour") if d.get("flavour") in exes else first_fl
+        return path, fl, run_plan(exes[fl], d.get("plan", d))
+    with cf.ThreadPoolExecutor(max_workers=workers) as ex:
+        for path, fl, res in ex.map(_reg, reg_files):
+            if res.get("status") == "harness-error":
+                harness_errors.append(res)
+            elif res.get("status") != "ok":
+                unknown = [v for v in res.get("violations", [])
+                           if not match_known(known, prop, v)]
+                if unknown:
+                    reg_fail.append((path, fl, res, unknown))
+    agg["probes"]["regression-plans-replayed"] = len(reg_files)
     wall_runs = time.time() - t_runs
     # samples: two generated plans, compacted
     exe0 = list(exes.values())[0]
@@ -427,6 +450,20 @@ def check(prop, tier, runs=None, workers=None, seed=None):
             log("  clause=%s detail=%s" % (clause, det["detail"][:1000]))
             nviol += 1
             rc = max(rc, 1)
+    for path, fl, res, unknown in reg_fail:
+        d = json.load(open(path))
+        again = run_plan(exes[fl], d.get("plan", d))
+        if again.get("hash") != res.get("hash") or \
+                unknown[0]["clause"] not in clauses(again):
+            log("  regression plan %s does not replay identically -> "
+                "harness fault" % path)
+            rc = max(rc, 2)
+            continue
+        print("VIOLATION property=%s replay=%s" % (prop, path), flush=True)
+        log("  regression plan: clause=%s detail=%s" % (
+            unknown[0]["clause"], unknown[0]["detail"][:1000]))
+        nviol += 1
+        rc = max(rc, 1)
     for k in known.get("findings", []):
         if k.get("property") == prop:
             print("KNOWN-FINDING: property=%s %s" % (prop, k.get("what", "")),
